@@ -273,8 +273,26 @@ def gen_plan(run_seed: int, tier: str) -> dict:
             ops = [dict(req("guc", U1), th=0), dict(rx("shb", pkt_shb(U1)), th=1)]
         if r2.random() < 0.3:
             ops.append(dict(req("guc", U1), th=max(o["th"] for o in ops) + 1))
+        if r2.random() < 0.7:
+            # the destination answers once more afterwards (same thread as a reply, or a thread of its own): whatever is still waiting
+            # for a lookup then leaves the buffer, so a request that was silently lost cannot hide behind a later give-up
+            rth = [o["th"] for o in ops if o["k"] == "rx" and o.get("what") == "lsrep"]
+            ops.append(dict(rx("lsrep", pkt_lsrep(U1)), th=rth[-1] if rth else max(o["th"] for o in ops) + 1))
         cfg["focus"] = "pair:" + pat
+        if r2.random() < 0.5:
+            cfg["pair_phases"] = [r2.randint(1, 14), r2.randint(1, 22)] + ([r2.randint(1, 12)] if r2.random() < 0.3 else [])
+            if r2.random() < 0.5:
+                # hand-offs counted only at releases of the LS lock: "k-th critical section of one thread, then k-th of the other"
+                cfg["pair_phases"] = [r2.randint(1, 3), r2.randint(1, 3)] + ([r2.randint(1, 2)] if r2.random() < 0.3 else [])
+                cfg["pair_focus"] = "_ls_lock"
     sched = S.sync_only_variant(run_seed, S.draw_strategy(r), focus_names=("_ls_lock", "_cbf_lock", "sequence_number_lock", "ego_position_vector_lock", "loc_t_lock"))
+    if cfg.get("pair_phases"):
+        sched = dict(sched, strategy="random", p=0.0, sync_p=0.0, sync_only=True, phases=cfg["pair_phases"], timer_hold=100_000)
+        sched.pop("d", None)
+        sched.pop("at", None)
+        sched.pop("focus_lock", None)
+        if cfg.get("pair_focus"):
+            sched["focus_lock"] = cfg["pair_focus"]
     # race-directed share (own PRNG stream): coins right after writes to the shared state named in the property anchors
     sched = S.store_variant(run_seed, sched, names=SHARED_ATTRS)
     return {"engine": ENGINE, "property": ID, "config": cfg, "pre": pre, "ops": ops, "sched": sched, "sched_seed": r.getrandbits(32)}
@@ -717,7 +735,13 @@ class _Run:
                 # dropped after the final retry of a lookup that a concurrent request started while the reply was being processed:
                 # literally "dropped after the final retry"; no sequential order gives it, but the statement does not exclude it
                 self.probe("ls-dropped-although-reply-processed")
-            # requests buffered for one destination leave the buffer together: a later one flushed by a reply while this one vanished
+            # requests buffered for one destination leave the buffer together: a later one flushed by a reply while this one vanished.
+            # Only judged when ONE reply for that destination was processed in the run: with two replies the earlier request may have
+            # been popped by the first reply and - its flush racing with a lookup that a concurrent request had just opened - buffered
+            # again for that later lookup, whose retry ladder then ends in a legitimate give-up ("dropped after the final retry").
+            if len(rs) > 1:
+                self.probe("ls-rebuffered-across-replies-not-judged")
+                continue
             for l2, op2 in self.ops:
                 if l2 == label or op2["k"] != "req" or op2["type"] != "guc" or op2["dest"] != op["dest"] or l2 not in ret or inv[l2] < ret[label]:
                     continue
